@@ -211,39 +211,85 @@ func runSolver(ctx context.Context, sp solverSpec, dir string, id int, script st
 	return "error", o, el
 }
 
-// solveOne: fast path on z3-new, then a race of all solvers.
-func solveOne(dir string, id int, q *Query, timeout int) *QResult {
+// solveAll: stage 1 runs every query on z3 5.1 alone (short timeout, wide parallelism); stage 2
+// races the three solvers on what is left; stage 3 retries the remaining ones with four times the
+// timeout and little parallelism, so that machine load does not turn into spurious "undecided".
+func solveAll(qs []*Query, timeout int, par int) []*QResult {
+	dir, err := os.MkdirTemp(scratchRoot(), "govc-q-")
+	if err != nil {
+		panic(err)
+	}
+	defer os.RemoveAll(dir)
+	results := make([]*QResult, len(qs))
+	runStage := func(idx []int, par int, f func(i int) *QResult) {
+		var wg sync.WaitGroup
+		sem := make(chan struct{}, par)
+		for _, i := range idx {
+			wg.Add(1)
+			sem <- struct{}{}
+			go func(i int) {
+				defer wg.Done()
+				defer func() { <-sem }()
+				results[i] = f(i)
+			}(i)
+		}
+		wg.Wait()
+	}
+	var all []int
+	for i := range qs {
+		all = append(all, i)
+	}
+	runStage(all, par, func(i int) *QResult { return solveFast(dir, i, qs[i]) })
+	var rest []int
+	for i, r := range results {
+		if !decided(r) {
+			rest = append(rest, i)
+		}
+	}
+	p2 := par / 3
+	if p2 < 1 {
+		p2 = 1
+	}
+	runStage(rest, p2, func(i int) *QResult { return solveRace(dir, i, qs[i], timeout, results[i]) })
+	var rest2 []int
+	for _, i := range rest {
+		if !decided(results[i]) {
+			rest2 = append(rest2, i)
+		}
+	}
+	runStage(rest2, 3, func(i int) *QResult { return solveRace(dir, i, qs[i], 4*timeout, results[i]) })
+	for _, i := range rest2 {
+		if !decided(results[i]) {
+			groundCandidate(dir, i, qs[i], results[i])
+		}
+	}
+	return results
+}
+
+func decided(r *QResult) bool {
+	if r.Q.Cover {
+		return true
+	}
+	return r.Status == "sat" || r.Status == "unsat"
+}
+
+func solveFast(dir string, id int, q *Query) *QResult {
 	r := &QResult{Q: q}
 	if q.Trivial {
 		r.Status, r.Solver = "unsat", "syntactic"
 		return r
 	}
-	want := "unsat"
-	if q.Cover {
-		want = "sat"
-	}
-	fast := 2
-	if timeout < fast {
-		fast = timeout
-	}
-	if q.Cover {
-		// vacuity guards only need "not unsat"; satisfiable quantified queries rarely return a model quickly
-		st, out, el := runSolver(context.Background(), solvers[0], dir, id, q.Script, 3)
-		r.Attempt = append(r.Attempt, fmt.Sprintf("%s:%s:%.2fs", solvers[0].name, st, el))
-		r.Status, r.Solver, r.Secs, r.Output = st, solvers[0].name, el, out
-		return r
-	}
-	st, out, el := runSolver(context.Background(), solvers[0], dir, id, q.Script, fast)
+	st, out, el := runSolver(context.Background(), solvers[0], dir, id, q.Script, 3)
 	r.Attempt = append(r.Attempt, fmt.Sprintf("%s:%s:%.2fs", solvers[0].name, st, el))
-	if st == "sat" || st == "unsat" {
-		r.Status, r.Solver, r.Secs, r.Output = st, solvers[0].name, el, out
-		if st == "sat" {
-			r.Values = parseValues(out, q)
-		}
-		return r
+	r.Status, r.Solver, r.Secs, r.Output = st, solvers[0].name, el, out
+	if st == "sat" {
+		r.Values = parseValues(out, q)
 	}
-	_ = want
-	// race
+	return r
+}
+
+func solveRace(dir string, id int, q *Query, timeout int, prev *QResult) *QResult {
+	r := &QResult{Q: q, Attempt: prev.Attempt}
 	ctx, cancel := context.WithCancel(context.Background())
 	defer cancel()
 	type res struct {
@@ -259,17 +305,17 @@ func solveOne(dir string, id int, q *Query, timeout int) *QResult {
 		}()
 	}
 	best := res{st: "unknown"}
-	total := el
+	var total float64
 	for i := 0; i < len(solvers); i++ {
 		x := <-ch
 		r.Attempt = append(r.Attempt, fmt.Sprintf("%s:%s:%.2fs", x.name, x.st, x.el))
+		if x.el > total {
+			total = x.el
+		}
 		if x.st == "sat" || x.st == "unsat" {
 			best = x
 			cancel()
 			break
-		}
-		if x.el > total {
-			total = x.el
 		}
 		if best.st == "unknown" && x.st == "timeout" {
 			best = x
@@ -278,50 +324,32 @@ func solveOne(dir string, id int, q *Query, timeout int) *QResult {
 			best.out = x.out
 		}
 	}
-	r.Status, r.Solver, r.Secs, r.Output = best.st, best.name, best.el, best.out
+	r.Status, r.Solver, r.Secs, r.Output = best.st, best.name, best.el+prev.Secs, best.out
 	if r.Status == "error" {
 		r.Status = "unknown"
 	}
 	if best.st == "sat" {
 		r.Values = parseValues(best.out, q)
 	}
-	if r.Secs == 0 {
-		r.Secs = total
-	}
-	if r.Status != "sat" && r.Status != "unsat" && q.GroundScript != "" {
-		// no verdict on the quantified query: look for a candidate counterexample in its ground part.
-		// Such a model may violate the dropped quantified facts; it is only believed after replay.
-		st, out, el := runSolver(context.Background(), solvers[0], dir, id, q.GroundScript, 5)
-		r.Attempt = append(r.Attempt, fmt.Sprintf("ground-part:%s:%s:%.2fs", solvers[0].name, st, el))
-		if st == "sat" {
-			r.Values = parseValues(out, q)
-			r.Candidate = true
-			r.Output += "\n-- candidate model of the ground part --\n" + out
-		}
+	if best.el == 0 {
+		r.Secs = total + prev.Secs
 	}
 	return r
 }
 
-func solveAll(qs []*Query, timeout int, par int) []*QResult {
-	dir, err := os.MkdirTemp(scratchRoot(), "govc-q-")
-	if err != nil {
-		panic(err)
+// groundCandidate: no verdict on the quantified query: look for a candidate counterexample in its
+// ground part. Such a model may violate the dropped quantified facts; it is only believed after replay.
+func groundCandidate(dir string, id int, q *Query, r *QResult) {
+	if q.GroundScript == "" {
+		return
 	}
-	defer os.RemoveAll(dir)
-	results := make([]*QResult, len(qs))
-	var wg sync.WaitGroup
-	sem := make(chan struct{}, par)
-	for i, q := range qs {
-		wg.Add(1)
-		sem <- struct{}{}
-		go func(i int, q *Query) {
-			defer wg.Done()
-			defer func() { <-sem }()
-			results[i] = solveOne(dir, i, q, timeout)
-		}(i, q)
+	st, out, el := runSolver(context.Background(), solvers[0], dir, id, q.GroundScript, 5)
+	r.Attempt = append(r.Attempt, fmt.Sprintf("ground-part:%s:%s:%.2fs", solvers[0].name, st, el))
+	if st == "sat" {
+		r.Values = parseValues(out, q)
+		r.Candidate = true
+		r.Output += "\n-- candidate model of the ground part --\n" + out
 	}
-	wg.Wait()
-	return results
 }
 
 func scratchRoot() string {
